@@ -180,6 +180,15 @@ def reindex_database(
     error_files = error_file_whitelist.read_text().split("\n")
 
     num_of_updates = 0
+    if not cmd.paths:
+        # Files that have been deleted (or renamed) since they were indexed.
+        for stale_page_name in session.repo.get_file_names():
+            if stale_page_name not in file_to_hash:
+                num_of_updates += 1
+                _LOGGER.debug("Removing file from DB", file=stale_page_name)
+                session.repo.remove_file_by_name(stale_page_name)
+                session.commit()
+
     for zorg_page_name, hash_ in file_to_hash.copy().items():
         # If this file has never been indexed OR the file contents have changed
         # since the last time it was indexed.
